@@ -6,8 +6,10 @@ cd "$(dirname "$0")"
 export GOFLAGS=-mod=mod GOPROXY=off GOSUMDB=off GOTOOLCHAIN=local
 mkdir -p work/bin evidence replays lean/RulesModel/Generated
 (cd extract && go build -o ../work/bin/extract .)
-./work/bin/extract /repo lean/RulesModel/Generated work/generated.json
+REPO="${VERIF_REPO:-/repo}"
+./work/bin/extract "$REPO" lean/RulesModel/Generated work/generated.json
 (cd lean && lake build)
-cp /repo/go.sum harness/go.sum
+cp "$REPO/go.sum" harness/go.sum
+sed -i "s#^replace github.com/nikunjy/rules => .*#replace github.com/nikunjy/rules => $REPO#" harness/go.mod
 (cd harness && go build -tags verif -o ../work/bin/rulesharness .)
 echo "setup done"
